@@ -14,6 +14,7 @@ import (
 //   - the request itself is malformed: the deciding atom speaks only about the endpoint's own parameters;
 //   - the rules' verdict for this position is not APPROVED;
 //   - a step failed: an error value is non-nil / a comma-ok flag is false / a helper's core.Result is not SUCCEEDED.
+//
 // A refusal decided by anything else - in particular by state the service keeps between requests - would refuse a
 // request that every serial order signs.
 func (c *Ctx) SignerRefusalReasons(prop string) {
